@@ -568,6 +568,37 @@ fn c01_rice_code_word() {
     kani::cover!(p == 14 && r == (1 << 14) - 1);
 }
 
+/// Bit-string algebra used by the Verus unit parser_residual_inverse: a 6-bit field holding v < 16
+/// (the writer's `write_lsbs(order, 6)`) is the two bits 00 followed by the 4-bit field (what the
+/// parser reads as coding method and partition order); and any field is its high part followed by
+/// its low part.
+//@ unit props=C15 tier=quick kind=complete timeout=300 funcs="Ideal::push_lsbs (specification algebra)" note="about the specification's bit strings, loop-free: complete"
+#[kani::proof]
+#[kani::unwind(4)]
+fn c15_lsbs_split() {
+    let v: u64 = kani::any();
+    kani::assume(v < 16);
+    let mut a = Ideal::new();
+    a.push_lsbs(v, 6);
+    let mut b = Ideal::new();
+    b.push_lsbs(0, 2);
+    b.push_lsbs(v, 4);
+    assert!(a.len == b.len && a.w[0] == b.w[0]);
+    let x: u64 = kani::any();
+    let n: usize = kani::any();
+    let k: usize = kani::any();
+    kani::assume(1 <= k && k < n && n <= 32);
+    kani::assume(x < (1u64 << n));
+    let mut c = Ideal::new();
+    c.push_lsbs(x, n);
+    let mut d = Ideal::new();
+    d.push_lsbs(x >> k, n - k);
+    d.push_lsbs(x & ((1u64 << k) - 1), k);
+    assert!(c.len == d.len && c.w[0] == d.w[0]);
+    kani::cover!(v == 15);
+    kani::cover!(n == 32 && k == 1);
+}
+
 /// Byte-sink constructors / exports used by `Frame::precompute_bitstream` (Verus unit
 /// frame_precompute): `with_capacity(n)` is the EMPTY sink for every n that can be allocated;
 /// `into_inner` / `as_slice` of a sink whose length is a whole number of bytes are exactly the
